@@ -61,6 +61,12 @@ pub fn check(c: &Case, obs: &mut Obs) -> Result<Option<Frame>, Fail> {
 
 /// The SVG of the case through the JS/WASM export `qr_svg` (host-compiled through the guarded hook): the third
 /// documented way to give the placement options. Its `image_size(size, gap)` sets both values at once.
+#[cfg(not(fast_qr_verif))]
+fn wasm_svg(_c: &Case) -> Result<String, Fail> {
+    unreachable!("check_via returns before this in the plain build")
+}
+
+#[cfg(fast_qr_verif)]
 fn wasm_svg(c: &Case) -> Result<String, Fail> {
     use fast_qr::verif_wasm_host as wasm;
     let cfg = c.cfg.clone();
@@ -88,6 +94,11 @@ fn wasm_svg(c: &Case) -> Result<String, Fail> {
 }
 
 pub fn check_via(c: &Case, via_wasm: bool, obs: &mut Obs) -> Result<Option<Frame>, Fail> {
+    if via_wasm && !cfg!(fast_qr_verif) {
+        // the pass over fast_qr built WITHOUT the verification flag has no host-compiled wasm module
+        obs.label("wasm_entry_points:not_in_the_plain_build");
+        return Ok(None);
+    }
     let v = c.version;
     let bc = BuildCase::new(b"C18".to_vec(), Opts { mode: None, level: Some(Level::L), version: Some(v), mask: Some(0) });
     let built = match do_build(&bc)? {
